@@ -29,6 +29,7 @@ package literal
 //@   ensures [C10] uint64: v is uint64 && err == nil ==> nodeInt(res) == v.(uint64)
 //@   ensures [C10] safe53: (v is int || v is int64 || v is uint || v is uint64) && err == nil ==> -9007199254740991 <= nodeInt(res) && nodeInt(res) <= 9007199254740991
 //@   ensures [C10] node: v is datamodel.Node && err == nil ==> res == v
+//@   ensures [C19] bytes: v is []byte && err == nil ==> res == bytesNode(bytes(v.([]byte)))
 //@
 //@ func anyAssemble
 //@   trusted
